@@ -19,14 +19,41 @@ META['explanation'] += ' R09.9 `stel` and a named `functie` store into the slot 
 SYM = 'src/symbols.rs'
 
 
+_CHAIN_HELPERS = {}
+
+
 def iter_chain(e):
-    """method chain of an expression: [('recv', base), m1, m2, ...]"""
+    """method chain of an expression: [('recv', base), m1, m2, ...].  A private helper of the symbol table whose body is itself one
+    chain over `self` (`fn names(&self) -> impl Iterator { self.symbols.iter().flatten() }`) stands for that chain."""
     chain = []
     while isinstance(e, dict) and e.get('k') == 'mcall':
         chain.append((e['method'], e['args']))
         e = e['recv']
     chain.reverse()
+    for _ in range(3):
+        if chain and isinstance(e, dict) and e.get('k') == 'path' and e.get('path') == ['self'] and not chain[0][1] and chain[0][0] in _CHAIN_HELPERS:
+            hb = _CHAIN_HELPERS[chain[0][0]]
+            inner = []
+            x = hb
+            while isinstance(x, dict) and x.get('k') == 'mcall':
+                inner.append((x['method'], x['args']))
+                x = x['recv']
+            inner.reverse()
+            e, chain = x, inner + chain[1:]
+        else:
+            break
     return e, chain
+
+
+def _register_chain_helpers(S):
+    _CHAIN_HELPERS.clear()
+    for im in S.impls(SYM):
+        for it in im['items']:
+            if it['k'] != 'fn' or len([i for i in it['inputs'] if not i.get('self')]) != 0 or not any(i.get('self') for i in it['inputs']):
+                continue
+            st = it['body']['stmts']
+            if len(st) == 1 and st[0]['k'] == 's_expr' and not st[0].get('semi') and st[0]['expr'].get('k') == 'mcall' and 'Iterator' in (it.get('output') or ''):
+                _CHAIN_HELPERS[it['name']] = st[0]['expr']
 
 
 def counted_loops(body):
@@ -117,6 +144,7 @@ def run(ctx, rep):
     if not b6:
         rep.good('R09.6', 'compiler::Compiler', 'loops over syntax-tree lists', 'no loop over a list of syntax-tree nodes has an early exit other than an error', 'src/compiler.rs')
     # R09.2 lookup direction
+    _register_chain_helpers(S)
     res = S.method(SYM, 'Context', 'resolve')
     dfn = S.method(SYM, 'Context', 'define')
     appends = find_all(dfn['body'], lambda n: n.get('k') == 'mcall' and n['method'] == 'push')
